@@ -21,6 +21,9 @@ pub enum Step {
 	Batch(u8),
 	Notify,
 	Answer { pick: u16, err: bool },
+	/// the answer has been taken in by the transport but its `receive()` only returns later; in between, time
+	/// passes (with pings enabled the client's timers fire)
+	AnswerHeld { pick: u16, err: bool },
 	AnswerBatch { pick: u16, perm: Vec<u16> },
 	PushSub { pick: u16, packed: bool },
 	PushPlain,
@@ -88,11 +91,13 @@ pub struct World {
 	pub answered_single: Vec<(usize, Value)>,
 	/// responses carry members a response does not have (`method`, `params`, `extra`): a reader ignores them
 	pub extra_members: bool,
+	/// Some(gate): the next single answer is delivered through a `receive()` that waits for that gate
+	pub hold_next: Option<String>,
 }
 
 impl World {
 	pub fn new(cfg: ClientCfg) -> World {
-		World { mc: MockClient::new(cfg), ops: vec![], subs: Arc::new(parking_lot::Mutex::new(vec![])), nonce: 0, wire: vec![], poisoned: false, answered_single: vec![], extra_members: false }
+		World { mc: MockClient::new(cfg), ops: vec![], subs: Arc::new(parking_lot::Mutex::new(vec![])), nonce: 0, wire: vec![], poisoned: false, answered_single: vec![], extra_members: false, hold_next: None }
 	}
 
 	pub fn spawn_call(&mut self) {
@@ -261,7 +266,12 @@ impl World {
 		self.ops[op].stamped[0] = Some(stamp);
 		self.ops[op].answered_before_poison = !self.poisoned;
 		self.answered_single.push((op, id));
-		self.mc.push_text(body.to_string());
+		// (with unknown members also: blanks around the text)
+		let text = if self.extra_members { format!("\r\n {} \n", body) } else { body.to_string() };
+		match self.hold_next.take() {
+			Some(g) => self.mc.push_text_held(text, &g),
+			None => self.mc.push_text(text),
+		}
 	}
 
 	pub fn answer_batch(&mut self, op: usize, order: &[usize], errs: &[bool]) {
@@ -277,7 +287,7 @@ impl World {
 		}
 		let _ = n;
 		self.ops[op].answered_before_poison = !self.poisoned;
-		self.mc.push_text(Value::Array(arr).to_string());
+		self.mc.push_text(if self.extra_members { format!(" \t{}\r\n", Value::Array(arr)) } else { Value::Array(arr).to_string() });
 	}
 
 	/// collect outcomes of finished ops (after settle)
@@ -328,6 +338,7 @@ impl SubCheck for Routing {
 			2 => (1u8..5).prop_map(Step::Batch),
 			1 => Just(Step::Notify),
 			6 => (any::<u16>(), proptest::bool::weighted(0.25)).prop_map(|(pick, err)| Step::Answer { pick, err }),
+			1 => (any::<u16>(), proptest::bool::weighted(0.25)).prop_map(|(pick, err)| Step::AnswerHeld { pick, err }),
 			1 => any::<u16>().prop_map(|pick| Step::Abandon { pick }),
 			2 => (any::<u16>(), proptest::collection::vec(any::<u16>(), 4)).prop_map(|(pick, perm)| Step::AnswerBatch { pick, perm }),
 			2 => (any::<u16>(), any::<bool>()).prop_map(|(pick, packed)| Step::PushSub { pick, packed }),
@@ -353,7 +364,7 @@ impl SubCheck for Routing {
 		let rt = rt();
 		crate::panics::clear_local();
 		rt.block_on(async {
-			let mut w = World::new(ClientCfg { id_kind: case.id_kind, mw_last: case.send_yields == 3, ws_builder: case.send_yields >= 2, ..ClientCfg::default() });
+			let mut w = World::new(ClientCfg { id_kind: case.id_kind, mw_last: case.send_yields == 3, ws_builder: case.send_yields >= 2, ping: case.send_yields == 2, ..ClientCfg::default() });
 			if case.send_yields == 3 {
 				obs.class("client-built-through-set_rpc_middleware");
 			}
@@ -368,6 +379,7 @@ impl SubCheck for Routing {
 			let mut since_last_answer_other = false;
 			let mut late_sends = 0u32;
 			let mut abandoned = 0u32;
+			let mut held = 0u32;
 			for (step, settle_after) in &case.steps {
 				w.read_wire();
 				// wire ids of concurrently pending single requests are pairwise distinct
@@ -416,6 +428,20 @@ impl SubCheck for Routing {
 							}
 							since_last_answer_other = false;
 							w.answer_single(out[k], *err);
+						}
+					}
+					Step::AnswerHeld { pick, err } => {
+						let out = w.outstanding_singles();
+						if !out.is_empty() && !w.poisoned {
+							held += 1;
+							let gate = format!("hold{held}");
+							w.hold_next = Some(gate.clone());
+							w.answer_single(out[pick_idx(*pick, out.len())], *err);
+							// hours pass while the transport is half-way through the message
+							settle().await;
+							settle().await;
+							w.mc.shared.gates.open(&gate);
+							settle().await;
 						}
 					}
 					Step::AnswerBatch { pick, perm } => {
@@ -512,6 +538,9 @@ impl SubCheck for Routing {
 			}
 			if abandoned > 0 {
 				obs.class("with-abandoned-request");
+			}
+			if held > 0 {
+				obs.class("answer-held-inside-receive");
 			}
 			if w.ops.iter().any(|o| o.abandoned && o.stamped.iter().any(|s| s.is_some())) {
 				obs.class("abandoned-request-answered-late");
